@@ -10,6 +10,7 @@
   even when the organiser's own validation passed or was skipped (legacy path).
 -/
 import GqlVerif.Proofs.C08
+import GqlVerif.Proofs.C08Skip
 namespace GqlVerif.Props.C08
 open GqlVerif.Sched
 
@@ -126,5 +127,66 @@ def depsEx : Nat → List Nat := fun i => if i == 2 then [0, 1] else if i == 3 t
 example : validate depsEx [0, 1, 2, 3] (.seq (.par (.single 0) (.single 1)) (.seq (.single 2) (.single 3))) = true := by decide
 example : validate depsEx [0, 1, 2, 3] (.seq (.par (.single 0) (.single 2)) (.seq (.single 1) (.single 3))) = false := by decide
 example : validate depsEx [0, 1, 2, 3] (.seq (.par (.single 0) (.single 1)) (.single 2)) = false := by decide
+
+/-! ## Failing requests (model: GqlVerif.Plan.Skip)
+
+  The loader records failed requests in `Loader.erroredFetchIDs` and does not issue a request that reads
+  from a recorded one.  `errored` / `issued` are that bookkeeping along one linearisation of the tree
+  (latest fetch first); `WO` says the linearisation is legal (unique ids, nobody reads from itself or
+  from a later fetch — what `schedule_respects_dependencies` above gives for a validated tree). -/
+section Failing
+open GqlVerif.Plan.Skip
+
+/-- the bookkeeping computes the least fixpoint: a fetch is recorded iff its own request fails or it reads from a recorded one -/
+theorem errored_is_the_fixpoint (fail : List Nat) (s : List F) (h : WO s) (f : F) (hf : f ∈ s) :
+    f.id ∈ errored fail s ↔ (f.id ∈ fail ∨ ∃ d ∈ f.deps, d ∈ errored fail s) :=
+  errored_iff fail s h f hf
+
+/-- a request is issued exactly when nothing it reads from is recorded -/
+theorem issued_iff_no_errored_dependency (fail : List Nat) (s : List F) (h : WO s) (f : F) (hf : f ∈ s) :
+    f.id ∈ issued fail s ↔ ∀ d ∈ f.deps, d ∉ errored fail s :=
+  issued_iff fail s h f hf
+
+/-- a request that reads from a planned request that fails is never issued -/
+theorem dependent_of_failed_request_not_issued (fail : List Nat) (s : List F) (h : WO s)
+    (f g : F) (hf : f ∈ s) (hg : g ∈ s) (hdep : g.id ∈ f.deps) (hfail : g.id ∈ fail) :
+    f.id ∉ issued fail s := fun hi =>
+  (issued_iff fail s h f hf).mp hi g.id hdep ((errored_iff fail s h g hg).mpr (Or.inl hfail))
+
+/-- … nor is one that reads from a request that was itself not issued for that reason (transitively) -/
+theorem dependent_of_skipped_request_not_issued (fail : List Nat) (s : List F) (h : WO s)
+    (f g : F) (hf : f ∈ s) (hg : g ∈ s) (hdep : g.id ∈ f.deps) (hskip : g.id ∉ issued fail s) :
+    f.id ∉ issued fail s := fun hi => by
+  have hne : ¬ ∀ d ∈ g.deps, d ∉ errored fail s := fun hall => hskip ((issued_iff fail s h g hg).mpr hall)
+  have : g.id ∈ errored fail s := by
+    refine (errored_iff fail s h g hg).mpr (Or.inr ?_)
+    apply Classical.byContradiction
+    intro hno
+    exact hne (fun d hd he => hno ⟨d, hd, he⟩)
+  exact (issued_iff fail s h f hf).mp hi g.id hdep this
+
+/-- the set of recorded fetches and the set of issued requests do not depend on the linearisation:
+    any two legal orders of the same fetches agree -/
+theorem failing_requests_order_independent (fail : List Nat) (s₁ s₂ : List F) (h₁ : WO s₁) (h₂ : WO s₂) (hp : s₁.Perm s₂) :
+    (∀ x, x ∈ errored fail s₁ ↔ x ∈ errored fail s₂) ∧ (∀ x, x ∈ issued fail s₁ ↔ x ∈ issued fail s₂) :=
+  ⟨errored_perm fail s₁ s₂ h₁ h₂ hp, issued_perm fail s₁ s₂ h₁ h₂ hp⟩
+
+/-- every planned request is issued at most once -/
+theorem issued_at_most_once (fail : List Nat) : ∀ (s : List F), WO s → (issued fail s).Nodup
+  | [], _ => by simp [issued]
+  | g :: t, hw => by
+    have ih := issued_at_most_once fail t (WO_tail hw)
+    unfold issued
+    split
+    · exact ih
+    · refine List.nodup_cons.mpr ⟨fun h => ?_, ih⟩
+      obtain ⟨f', hf', e⟩ := mem_issued h
+      exact ((List.pairwise_cons.mp hw.1).1 f' hf').1 e
+
+/-! Non-vacuity: 1 reads 0, 2 reads 1, 3 reads nothing; 0 fails. Two legal orders, same outcome. -/
+example : issued [0] [⟨2, [1]⟩, ⟨1, [0]⟩, ⟨3, []⟩, ⟨0, []⟩] = [3, 0] := by decide
+example : issued [0] [⟨3, []⟩, ⟨2, [1]⟩, ⟨1, [0]⟩, ⟨0, []⟩] = [3, 0] := by decide
+example : errored [0] [⟨2, [1]⟩, ⟨1, [0]⟩, ⟨3, []⟩, ⟨0, []⟩] = [2, 1, 0] := by decide
+end Failing
 
 end GqlVerif.Props.C08
